@@ -14,8 +14,13 @@ EXPLANATION = (
 RULE_TEXT = "obligation = (rule, emitter, wire class, scenario) or (rule, function); evaluations = abstract paths; non-trivial = distinct scenario rows"
 
 
+def _u2b(ctx) -> None:
+    from .decode import rule_U2b
+    rule_U2b(ctx)       # a record that is not converted (wire type of another schema) must not select / set any member
+
+
 def run(ctx) -> None:
-    for name, fn in (("D1", presence.rule_D1), ("D2", presence.rule_D2), ("D3", presence.rule_D3), ("D4", presence.rule_D4), ("D5", presence.rule_D5), ("T5", codec.rule_T5), ("V7", presence.rule_V7), ("D6", presence.rule_D6), ("D7", presence.rule_D7), ("D8", presence.rule_D8), ("O2", presence.rule_O2)):
+    for name, fn in (("D1", presence.rule_D1), ("D2", presence.rule_D2), ("D3", presence.rule_D3), ("D4", presence.rule_D4), ("D5", presence.rule_D5), ("T5", codec.rule_T5), ("V7", presence.rule_V7), ("D6", presence.rule_D6), ("D7", presence.rule_D7), ("D8", presence.rule_D8), ("O2", presence.rule_O2), ("U2b", _u2b)):
         ctx.rules_run.append(name)
         fn(ctx)
     ctx.oracle("proto3 field presence table (embedded): implicit fields skip the default; optional / oneof / wrapper / message presence is explicit")
